@@ -4,7 +4,7 @@
 # and restores /repo.
 set -u
 ID=$1; PKG=$2; shift 2
-OUT=/tmp/seedout-$ID
+OUT=${SEEDOUT:-/tmp/seedout-$ID}
 WT=/tmp/seedverify-$ID
 git -C /repo worktree remove --force $WT >/dev/null 2>&1
 git -C /repo worktree add --detach $WT HEAD >/dev/null 2>&1 || exit 2
